@@ -9,3 +9,22 @@ package fischlin
 //@   ensures (sigmaProtocol == nil || prng == nil) ==> err != nil
 //@   ensures err == nil ==> result != nil && result.prng == prng && result.sigmaProtocol == sigmaProtocol
 //@   ensures forall x V :: !culprit(err, x)
+
+// The Fischlin proof-of-work value covers the FIRST b BITS of the random-oracle digest of (common hash, repetition
+// index, challenge, response): b/8 whole digest bytes followed by the low (b mod 8) bits of the next digest byte
+// (the returned slice has b/8+1 bytes; nothing of the b bits is dropped, nothing beyond them is kept).
+//@ func hash
+//@   property C08
+//@   ghostvar H []byte
+//@   ensures err == nil ==> len(result) == b/8 + 1
+//@   ensures err == nil ==> forall j int :: 0 <= j && j < b/8 ==> result[j] == H[j]
+//@   ensures err == nil ==> result[b/8] == and8(H[b/8], pow2(b % 8) - 1)
+//@   ghostset after "h, err := hashing.Hash(randomOracle": H = h
+
+// isAllZeros is true exactly when every byte is zero (for any length).
+//@ func isAllZeros
+//@   property C08
+//@   mode int
+//@   ensures result == forall j int :: 0 <= j && j < len(data) ==> data[j] == 0
+//@   loop range(data)
+//@     invariant 0 <= zeros && zeros <= 255 && (zeros == 0) == forall j int :: 0 <= j && j < $i ==> data[j] == 0
